@@ -106,7 +106,15 @@ impl verif_rt::Hooks for FHooks {
                     if let Some(p) = FIRED_FILE.lock().unwrap().as_ref() {
                         let _ = std::fs::write(
                             p,
-                            format!("{k} {} {} {}", rec.kind.as_str(), rec.file, rec.len),
+                            format!(
+                                "{k} {} {} {}",
+                                rec.kind.as_str(),
+                                std::path::Path::new(&rec.file)
+                                    .file_name()
+                                    .map(|f| f.to_string_lossy().to_string())
+                                    .unwrap_or_default(),
+                                rec.len
+                            ),
                         );
                     }
                     st.io_fired = Some((k, rec));
